@@ -3,7 +3,7 @@
     confirmation loop over all histories, destination = the wallet itself. *)
 From Coq Require Import List NArith ZArith Arith Bool Lia.
 From Tongo Require Import Lib.Bits Lib.Res Model.BocParse Model.CellHash Spec.ReprHash Model.Wallet
-  Model.WalletSend Proofs.WalletP Proofs.WalletSigP.
+  Model.WalletSend Proofs.WalletP Proofs.WalletSigP Proofs.WalletHlP.
 Import ListNotations.
 
 (** *** small facts *)
@@ -360,6 +360,23 @@ Proof.
   pose proof (Z.div_mod wait 10 ltac:(lia)). change (Z.of_nat 10) with 10%Z. lia.
 Qed.
 
+(** *** history independence: whatever was called before on the same Wallet
+    object, and whatever the caller did to the values it got back, every answer
+    is the answer of a fresh wallet with the same parameters *)
+Theorem history_independent code chash w ops :
+  run_history code chash w ops = map (fresh_answer code chash w) ops.
+Proof.
+  unfold run_history. induction ops as [|op t IH]; [reflexivity|].
+  cbn [run_design map library_design d_step fst snd]. f_equal. exact IH.
+Qed.
+
+Corollary history_prefix_irrelevant code chash w pre op :
+  nth_error (run_history code chash w (pre ++ [op])) (length pre) = Some (fresh_answer code chash w op).
+Proof.
+  rewrite history_independent, map_app, nth_error_app2 by (rewrite map_length; lia).
+  rewrite map_length, Nat.sub_diag. reflexivity.
+Qed.
+
 Section Conf.
 Variable code : version -> cell.
 Variable chash : cell -> res bytes.
@@ -441,6 +458,47 @@ Proof.
     destruct Hb as (body & Hb & Hp). exists body. auto 10.
   - unfold raw_send_v2 in H. rewrite Er in H. discriminate.
   - unfold raw_send_v2 in H. rewrite Er in H. discriminate.
+Qed.
+
+(* the wallet's own state-init is a decodable StateInit *)
+Lemma own_state_init_ok w si : state_init code w = Ok si -> stateinit_ok si = Ok tt.
+Proof.
+  unfold state_init. intros H. apply bind_ok in H. destruct H as (d & _ & H). apply mk_ok in H. destruct H as (-> & _).
+  reflexivity.
+Qed.
+
+Lemma next_params_init_ok w a seqno init : next_params code w a = Ok (seqno, init) -> init_ok chash init.
+Proof.
+  unfold next_params. intros H.
+  assert (G : forall r, (do si <- state_init code w; Ok (0%N, Some si)) = Ok r -> init_ok chash (snd r)).
+  { intros r Hr. apply bind_ok in Hr. destruct Hr as (si & Hsi & Hr). injection Hr as <-. cbn [snd init_ok].
+    exact (own_state_init_ok w si Hsi). }
+  assert (G2 : forall v d r, (do s <- seqno_of_data v d; Ok (s, @None cell)) = Ok r -> init_ok chash (snd r)).
+  { intros v d r Hr. apply bind_ok in Hr. destruct Hr as (s & _ & Hr). injection Hr as <-. exact I. }
+  destruct (w_ver w); try discriminate; destruct a; try (apply (G _ H)); try (apply (G2 _ _ _ H));
+    injection H as <- <-; exact I.
+Qed.
+
+(* SendV2 / Send with the clock: what is sent carries expiry = now + the wallet's
+   configured lifetime (the same value CreateMessageBody takes by default), the
+   requested messages and, for seqno-bearing versions, the account's seqno *)
+Theorem api_send_v2_expiry w sk life now a ms rnd wait send_err hist e r :
+  (forall sk m, length (sign sk m) = 512%nat) ->
+  modes_ok ms -> sendable (w_ver w) ->
+  (forall seqno init, next_params code w a = Ok (seqno, init) -> (seqno < 4294967296)%N) ->
+  api_send_v2 code chash SK sign w sk life now (Some a) ms rnd wait send_err hist = (Some e, r) ->
+  exists d, decode_msg chash (w_ver w) e = Ok d /\ extract_raw chash (w_ver w) e = Ok ms /\
+            d_valid d = unix32 (expiry now life).
+Proof.
+  intros Hsl Hm Hs Hq H. unfold api_send_v2 in H.
+  destruct (send_v2_spec _ _ _ _ _ _ _ _ _ _ _ H) as (seqno & init & wc & h & hh & body & Hn & Ha & Hr & _).
+  assert (Hl : length (bytes_to_bits h) = 256%nat).
+  { rewrite bytes_to_bits_len. unfold address in Ha.
+    apply bind_ok in Ha. destruct Ha as (si & _ & Ha). apply bind_ok in Ha. destruct Ha as (h' & Hh & Ha).
+    injection Ha as _ <-. rewrite (hash_len _ _ Hh). reflexivity. }
+  destruct (WalletHlP.extract_roundtrip SK chash sign Hsl _ _ _ _ _ _ _ _ _ _ _ Hm Hl
+              (next_params_init_ok _ _ _ _ Hn) Hs (Hq _ _ Hn) Hr) as (d & Hd & He & _ & _ & Hv & _).
+  exists d. auto.
 Qed.
 
 (* nothing is sent when the account state cannot be fetched *)
